@@ -733,10 +733,17 @@ def _helper_obj(h):
     elif k == "sarrayval":
         t = StaticArrayVal([], B.build_type(h[1]), "n").to_value().typ
     elif k == "divmod":
+        # a second helper object with other parameters is instantiated first in the same process: what a helper denotes
+        # must not depend on which other parameterisations were used before (seeded change C10-14)
+        try:
+            _DivModDef(width=(h[1] + 1) % 7 if isinstance(h[1], int) else 5).ext_op  # noqa: B018
+        except Exception:  # noqa: BLE001
+            pass
         op = _DivModDef(width=h[1])
-        return "op", op.op_def(), op.type_args()
+        eo = op.ext_op  # the definition-backed operation the helper stands for (what is serialised)
+        return "op", eo.op_def(), eo.args
     elif k == "not":
-        return "op", Not.op_def(), Not.type_args()
+        return "op", Not.ext_op.op_def(), Not.ext_op.args
     else:
         raise ValueError(h)
     return "type", t.type_def, t.args
@@ -1224,6 +1231,8 @@ def _oracle_helper(h):
             return [Failure(site, "parameter-kind", f"argument {i}: {type(a).__name__} for {jp['tp']}")]
         if not _arg_fits(a, p):
             return [Failure(site, "argument-does-not-fit", f"argument {i}: {a!r} for {p!r}")]
+    if k in ("divmod", "int_t", "intval") and [B.arg_to_spec(a) for a in args] != [["@nat", h[1]]]:
+        return [Failure(site, "helper-parameters-differ-from-the-requested-ones", f"width {h[1]}: {args!r}")]
     return fails
 
 
